@@ -75,6 +75,25 @@ fn register_into(
                 let sys = HSys::new(id, &s.reads, &s.writes, s.time, ctx);
                 catch_unwind(AssertUnwindSafe(|| b.add_thread_local(sys)))
             }
+            Op::Static(st) => {
+                let id = *next_id;
+                *next_id += 1;
+                let deps = deps_ref(&st.deps);
+                macro_rules! add_static {
+                    ($k:ty) => {
+                        catch_unwind(AssertUnwindSafe(|| b.add(SSys::<$k> { id, time: st.time, ctx: ctx.clone(), _k: PhantomData }, &st.name, &deps)))
+                    };
+                }
+                match st.data {
+                    StaticData::Unit => add_static!(SUnit),
+                    StaticData::ReadA => add_static!(SReadA),
+                    StaticData::WriteC => add_static!(SWriteC),
+                    StaticData::OptReadA => add_static!(SOptReadA),
+                    StaticData::OptWriteC => add_static!(SOptWriteC),
+                    StaticData::ReadExpectA => add_static!(SReadExpectA),
+                    StaticData::ReadAWriteC => add_static!(SReadAWriteC),
+                }
+            }
             Op::Batch(bs) => {
                 let id = *next_id;
                 *next_id += 1;
